@@ -6867,7 +6867,10 @@ static int nowDoCvPkaInnerECDSA(ssl_t *ssl, pkaAfter_t *pka,
     tmpEcdsa = psMalloc(ssl->hsPool, len);
     if (tmpEcdsa == NULL)
     {
-        return PS_MEM_FAIL;
+        /* The signature is ours to free; leave through the common exit */
+        psFree(sig, ssl->hsPool);
+        rc = PS_MEM_FAIL;
+        goto out;
     }
     tmpEcdsa[0] = (sigLen << 8) & 0xff00;
     tmpEcdsa[1] = sigLen & 0xff;
